@@ -5,6 +5,8 @@ import (
 	"fmt"
 	"math/rand"
 	"os"
+	"os/exec"
+	"path/filepath"
 	"runtime"
 	"strings"
 
@@ -22,7 +24,7 @@ const c17GoodProfile = "profile: good\nprefixes:\n  ex: http://ex.org/\nviolatio
 // Valid JSON-LD without nodes yields a conforming report.
 func c17(tier string) {
 	ctx := lib.NewCtx("C17", tier)
-	ctx.Rule = "deterministic seeded hostile inputs: structure-aware YAML mutations (16 operators) of fixture and generated profiles, hand-written degenerate profiles, byte-level damage; JSON tree mutations / JSON-LD keyword type confusion / source-map type confusion of fixture and generated data, degenerate documents, byte-level damage; failure bursts (40 calls failing in one way - 10 input-driven kinds and an injected panic / error at each of the 7 stages - each followed by an ordinary validation that must return what it returned before); sampled cross product (hostile x good, good x hostile, hostile x hostile) through Validate, ValidateWithConfiguration, CompileProfile, ValidateCompiled, ValidateCompiledWithConfiguration, with and without an event channel; every call runs under recover() in a worker process that records the case on disk first; " +
+	ctx.Rule = "deterministic seeded hostile inputs: structure-aware YAML mutations (16 operators) of fixture and generated profiles, hand-written degenerate profiles, byte-level damage; JSON tree mutations / JSON-LD keyword type confusion / source-map type confusion of fixture and generated data, degenerate documents, byte-level damage; fresh processes in unusual environments (standard streams that are broken pipes / closed / a full device, a removed working directory, an empty environment: every call must still return and answer as in a plain environment); failure bursts (40 calls failing in one way - 10 input-driven kinds and an injected panic / error at each of the 7 stages - each followed by an ordinary validation that must return what it returned before); sampled cross product (hostile x good, good x hostile, hostile x hostile) through Validate, ValidateWithConfiguration, CompileProfile, ValidateCompiled, ValidateCompiledWithConfiguration, with and without an event channel; every call runs under recover() in a worker process that records the case on disk first; " +
 		"non-trivial & distinct = distinct (profile text, data text, entry point) whose input is not a pristine fixture"
 	ctx.Assumptions = []string{
 		"inputs are at most 64 KiB",
@@ -203,6 +205,86 @@ func c17(tier string) {
 					map[string]any{"profile": c17GoodProfile, "data": c11GoodData, "burst": b.name})
 			}
 		}
+	}
+	// unusual process environments: the same calls (reports, ordinary errors, answers from the recovered-panic path) in
+	// a fresh process whose standard streams are broken pipes / closed / a full device, whose working directory was
+	// removed, whose environment is empty: every call must still return, the process must not be killed
+	if self := os.Getenv("VERIF_SELF"); self != "" {
+		envs := []string{"plain", "stderr-is-a-broken-pipe", "stdout-is-a-broken-pipe", "all-streams-closed", "stdout-stderr-to-/dev/full", "working-directory-removed", "empty-environment"}
+		tmpEnv, _ := os.MkdirTemp("", "c17env")
+		var plain string
+		for ei, env := range envs {
+			if ctx.IsShard() && ei%4 != ctx.ShardIndex()%4 && ei != 0 {
+				continue
+			}
+			outFile := filepath.Join(tmpEnv, fmt.Sprintf("out-%d.txt", ei))
+			cmd := exec.Command(self, "child", "env-calls", outFile)
+			cmd.Env = append(os.Environ(), "VERIF_SHARD=", "VERIF_DEBUG=")
+			brokenPipe := func() *os.File {
+				r, w, _ := os.Pipe()
+				_ = r.Close()
+				return w
+			}
+			var toClose []*os.File
+			switch env {
+			case "stderr-is-a-broken-pipe":
+				w := brokenPipe()
+				cmd.Stderr = w
+				toClose = append(toClose, w)
+			case "stdout-is-a-broken-pipe":
+				w := brokenPipe()
+				cmd.Stdout = w
+				toClose = append(toClose, w)
+			case "all-streams-closed":
+				// nil Stdin/Stdout/Stderr would mean /dev/null: pass closed pipes instead
+				w1, w2 := brokenPipe(), brokenPipe()
+				cmd.Stdout, cmd.Stderr = w1, w2
+				toClose = append(toClose, w1, w2)
+			case "stdout-stderr-to-/dev/full":
+				if f, err := os.OpenFile("/dev/full", os.O_WRONLY, 0); err == nil {
+					cmd.Stdout, cmd.Stderr = f, f
+					toClose = append(toClose, f)
+				}
+			case "working-directory-removed":
+				gone := filepath.Join(tmpEnv, "gone")
+				_ = os.MkdirAll(gone, 0o755)
+				cmd.Dir = gone
+			case "empty-environment":
+				cmd.Env = []string{}
+			}
+			ctx.Begin("environment "+env, map[string]string{"environment": env})
+			err := cmd.Start()
+			if err == nil && env == "working-directory-removed" {
+				// the directory disappears right after the process started in it
+				_ = os.Remove(filepath.Join(tmpEnv, "gone"))
+			}
+			if err == nil {
+				err = cmd.Wait()
+			}
+			ctx.End()
+			for _, f := range toClose {
+				_ = f.Close()
+			}
+			b, _ := os.ReadFile(outFile)
+			got := string(b)
+			ctx.Eval("environment/" + env)
+			ctx.Count("environments_run", 1)
+			if env == "plain" {
+				plain = got
+			}
+			rp := map[string]any{"environment": env, "outcomes": clip(got, 3000)}
+			switch {
+			case err != nil:
+				ctx.Violation("killed-by-environment", fmt.Sprintf("in environment %s the process driving the library ended with %v after %d calls", env, err, strings.Count(got, "\n")), rp)
+			case !strings.HasSuffix(got, "DONE\n"):
+				ctx.Violation("killed-by-environment", fmt.Sprintf("in environment %s the calls did not all return (%d outcomes recorded)", env, strings.Count(got, "\n")), rp)
+			case strings.Contains(got, " PANIC "):
+				ctx.Violation("panic", fmt.Sprintf("in environment %s an entry point panicked", env), rp)
+			case env != "empty-environment" && plain != "" && got != plain:
+				ctx.Violation("environment-changes-outcomes", fmt.Sprintf("in environment %s the outcomes (report / error per call) differ from the plain environment", env), rp)
+			}
+		}
+		_ = os.RemoveAll(tmpEnv)
 	}
 	ctx.ForEach(n, func(i int) {
 		r := lib.CaseRand(ctx.Seed, 17, i)
